@@ -191,6 +191,21 @@ func prepareBbolt(scratch string) string {
 	if err := os.WriteFile(dbgo, []byte(s), 0o644); err != nil {
 		infra("bbolt: %v", err)
 	}
+	// The file-lock retry loop sleeps: route that sleep through a hook so the
+	// goroutine re-parks after waking instead of running on its own.
+	ux := filepath.Join(dst, "bolt_unix.go")
+	ub, err := os.ReadFile(ux)
+	if err != nil {
+		infra("bbolt: %v", err)
+	}
+	us := string(ub)
+	if strings.Count(us, "time.Sleep(flockRetryTimeout)") != 1 {
+		infra("bbolt seam: expected exactly one time.Sleep(flockRetryTimeout) in bolt_unix.go")
+	}
+	us = strings.Replace(us, "time.Sleep(flockRetryTimeout)", "verifSleep(flockRetryTimeout)", 1)
+	if err := os.WriteFile(ux, []byte(us), 0o644); err != nil {
+		infra("bbolt: %v", err)
+	}
 	return dst
 }
 
